@@ -2,6 +2,7 @@ package rules
 
 import (
 	"fmt"
+	"go/token"
 	"go/types"
 	"sort"
 	"strings"
@@ -87,12 +88,13 @@ func runsProgram(fns []*ssa.Function) map[*ssa.Function]bool {
 }
 
 func C08(c *Ctx) {
-	c.R.Explanation = "Decides structural necessary conditions of 'emission is atomic and ordered': (R1) in the ECMAScript interpreter every return that can carry a non-nil error after the program has run returns a nil Execution (core adds an Execution's events whenever it is non-nil, so this is the point that carries atomicity); (R2) the emit callback appends only to the Execution allocated by this call, and every emitted value is a private copy (not reachable from the script world or the caller's data); (R3) from the result of a guard execution only Bs and Events.Traces are read — it never reaches AddEvents/AddEmitted; (R4) the accumulation functions (AddEmitted, AddEvents, Traces.Add, DoEmitted, Walked.add, the emit callback) contain no map range and no go statement and every append extends its own first operand; (R5) in sio.ProcessMsg the re-queue and report appends are unconditional in the per-message callback, and each reported batch is a slice allocated inside the per-machine loop. Timeouts at run time and native actions are not decided."
+	c.R.Explanation = "Decides structural necessary conditions of 'emission is atomic and ordered': (R1) in the ECMAScript interpreter every return that can carry a non-nil error after the program has run returns a nil Execution (core adds an Execution's events whenever it is non-nil, so this is the point that carries atomicity); (R2) the emit callback appends only to the Execution allocated by this call, and every emitted value is a private copy (not reachable from the script world or the caller's data); (R3) from the result of a guard execution only Bs and Events.Traces are read — it never reaches AddEvents/AddEmitted; (R4) the accumulation functions (AddEmitted, AddEvents, Traces.Add, DoEmitted, Walked.add, the emit callback) contain no map range and no go statement and every append extends its own first operand; (R5) in sio.ProcessMsg the re-queue and report appends are unconditional in the per-message callback, and each reported batch is a slice allocated inside the per-machine loop; (R6) every return of core Step that is reachable after the action's events were attached returns that stride unless the action itself failed, and Walk hands every stride returned by Step to Walked.add before the next step or a return. Timeouts at run time and native actions are not decided."
 	c.R.Rule("C08-R1", "E3", "no emissions together with an error from the interpreter", 2)
 	c.R.Rule("C08-R2", "E1", "private emit buffer; emitted values are private copies", 2)
 	c.R.Rule("C08-R3", "E5", "guard executions contribute traces only", 1)
 	c.R.Rule("C08-R4", "E3", "accumulators keep order: no map range, no go, append extends its own operand", 5)
 	c.R.Rule("C08-R5", "E3+E1", "crew re-queues and reports every emitted message once; batches are private", 3)
+	c.R.Rule("C08-R6", "E3", "a completed action's events leave Step with the stride, and Walk records every stride", 3)
 
 	a, exec := c.ecmaAnalysis()
 	if a == nil {
@@ -193,6 +195,7 @@ func C08(c *Ctx) {
 	c08Guards(c)
 	c08Order(c)
 	c08Crew(c)
+	c08Step(c)
 }
 
 // c08Guards: forward slice of every guard execution result in core.
@@ -571,4 +574,161 @@ func sliceOrigins(v ssa.Value, seen map[ssa.Value]bool) []ssa.Value {
 		return []ssa.Value{x}
 	}
 	return []ssa.Value{v}
+}
+
+// c08Step: once a completed action's events have been attached to the stride,
+// the stride leaves Step (R6a) and Walk records it (R6b).
+func c08Step(c *Ctx) {
+	step := c.fn("core", "Spec", "Step")
+	walk := c.fn("core", "Spec", "Walk")
+	addEvents := c.P.Func("core", "Events", "AddEvents")
+	if step == nil || walk == nil {
+		return
+	}
+	c.R.Fn(fname(step))
+	scope := pkgClosure(step)
+	// base of a field path: stride.Events -> stride
+	var base func(v ssa.Value) ssa.Value
+	base = func(v ssa.Value) ssa.Value {
+		switch x := v.(type) {
+		case *ssa.FieldAddr:
+			return base(x.X)
+		case *ssa.Field:
+			return base(x.X)
+		case *ssa.UnOp:
+			if x.Op == token.MUL {
+				if fa, ok := x.X.(*ssa.FieldAddr); ok {
+					return base(fa.X)
+				}
+			}
+		}
+		return v
+	}
+	leaves := func(v ssa.Value) map[ssa.Value]bool {
+		out := map[ssa.Value]bool{}
+		for _, d := range deepDefs(v, scope) {
+			out[d] = true
+		}
+		return out
+	}
+	// the action's error
+	var actErr ssa.Value
+	ssau.Instrs(step, func(in ssa.Instruction) {
+		if ex, ok := in.(*ssa.Extract); ok && ex.Index == 1 {
+			if cl, ok := ex.Tuple.(*ssa.Call); ok && cl.Common().IsInvoke() && cl.Common().Method.Name() == "Exec" {
+				actErr = ex
+			}
+		}
+	})
+	actionFailedAt := func(b *ssa.BasicBlock) bool {
+		if actErr == nil {
+			return false
+		}
+		for _, f := range flow.FactsAt(b) {
+			bo, ok := f.Cond.(*ssa.BinOp)
+			if !ok {
+				continue
+			}
+			var v ssa.Value
+			switch {
+			case ssau.IsNilConst(bo.Y):
+				v = bo.X
+			case ssau.IsNilConst(bo.X):
+				v = bo.Y
+			default:
+				continue
+			}
+			if !((bo.Op == token.NEQ && f.True) || (bo.Op == token.EQL && !f.True)) {
+				continue
+			}
+			only := true
+			for d := range leaves(v) {
+				if d != actErr {
+					only = false
+				}
+			}
+			if only && len(leaves(v)) > 0 {
+				return true
+			}
+		}
+		return false
+	}
+	n := 0
+	ssau.Instrs(step, func(in ssa.Instruction) {
+		ci, ok := in.(ssa.CallInstruction)
+		if !ok || ci.Common().StaticCallee() == nil || ci.Common().StaticCallee() != addEvents {
+			return
+		}
+		n++
+		strideLeaves := leaves(base(ci.Common().Args[0]))
+		after := flow.ReachableFrom(ci.Block(), nil)
+		after[ci.Block()] = true
+		ri := 0
+		for _, b := range step.Blocks {
+			ret, ok := b.Instrs[len(b.Instrs)-1].(*ssa.Return)
+			if !ok || !after[b] || len(ret.Results) == 0 {
+				continue
+			}
+			ri++
+			key := fmt.Sprintf("Step:return#%d after the action's events were attached", ri)
+			same := !ssau.IsNilConst(ret.Results[0])
+			for d := range leaves(ret.Results[0]) {
+				if !strideLeaves[d] {
+					same = false
+				}
+			}
+			switch {
+			case same:
+				c.R.Discharge("C08-R6", key, c.pos(ret), "returns the stride that carries the events")
+			case actionFailedAt(b):
+				c.R.Discharge("C08-R6", key, c.pos(ret), "reached only when the action itself failed (C08-R1: a failed execution carries no events)")
+			default:
+				c.R.Violate("C08-R6", key, c.pos(ret), "Step can return without the stride after a successfully completed action's events were attached to it: the action's emitted messages are dropped")
+			}
+		}
+	})
+	if n == 0 {
+		c.R.Break("C08-R6: Step does not attach the action's events with Events.AddEvents")
+	}
+	// R6b: Walk records the stride Step returned
+	c.R.Fn(fname(walk))
+	add := c.P.Func("core", "Walked", "add")
+	var stepCall *ssa.Call
+	var rec ssa.CallInstruction
+	ssau.Instrs(walk, func(in ssa.Instruction) {
+		if cl, ok := in.(*ssa.Call); ok && cl.Common().StaticCallee() == step {
+			stepCall = cl
+		}
+		if ci, ok := in.(ssa.CallInstruction); ok && add != nil && ci.Common().StaticCallee() == add {
+			rec = ci
+		}
+	})
+	if stepCall == nil || rec == nil {
+		c.R.Break("C08-R6: Walk's Step call or Walked.add call not found")
+		return
+	}
+	ok := false
+	for _, d := range phiDefs(rec.Common().Args[1], nil, map[ssa.Value]bool{}) {
+		if ex, isEx := d.(*ssa.Extract); isEx && ex.Tuple == ssa.Value(stepCall) && ex.Index == 0 {
+			ok = true
+		}
+	}
+	why := "Walked.add is not given the stride returned by Step"
+	if ok {
+		L := flow.InnermostLoop(flow.Loops(walk), stepCall.Block())
+		after := flow.ReachableFrom(stepCall.Block(), map[*ssa.BasicBlock]bool{rec.Block(): true})
+		for b := range after {
+			if b == rec.Block() {
+				continue
+			}
+			last := b.Instrs[len(b.Instrs)-1]
+			if _, isRet := last.(*ssa.Return); isRet {
+				ok, why = false, "Walk can return after a step without recording its stride ("+c.pos(last)+")"
+			}
+			if L != nil && b == L.Header {
+				ok, why = false, "Walk can start the next step without recording the previous stride"
+			}
+		}
+	}
+	c.R.Check(ok, "C08-R6", "Walk: every stride returned by Step is recorded", c.pos(rec), "Walked.add(stride) lies on every path from the Step call to the next step or a return", why)
 }
